@@ -142,6 +142,28 @@ def rule_A8(ctx):
                 r.ok(f'{op}:{norm(x)}')
             else:
                 r.fail(f.key, x, f'BitStore.{op} must return a new store; returning an operand aliases it into the result object', loc=f.loc(x))
+    # the bit-wise operators apply bitarray's operator on every path: that is where unequal lengths raise ValueError
+    ops = {'__and__': ast.BitAnd, '__or__': ast.BitOr, '__xor__': ast.BitXor, '__iand__': ast.BitAnd, '__ior__': ast.BitOr, '__ixor__': ast.BitXor}
+    for name, op in ops.items():
+        f = bs.methods.get(name)
+        if f is None:
+            raise AnalysisError(f'anchor vanished: BitStore.{name}')
+        top = [s for s in f.node.body if not (isinstance(s, ast.Expr) and isinstance(s.value, ast.Constant))]
+        applied = None
+        for i, s0 in enumerate(top):
+            cand = [s0] if isinstance(s0, ast.AugAssign) else ([s0.value] + list(ast.walk(s0.value)) if isinstance(s0, (ast.Return, ast.Assign)) and s0.value is not None else [])
+            hit = [y for y in cand if (isinstance(y, ast.BinOp) or isinstance(y, ast.AugAssign)) and isinstance(y.op, op)
+                   and '_bitarray' in ast.unparse(y)]
+            if hit:
+                applied = i
+                break
+        early = applied is None or any(isinstance(y, (ast.Return, ast.If)) for s0 in top[:applied] for y in ast.walk(s0))
+        if early:
+            r.fail(f.key, f'{name}: bitarray operator not applied on every path', f"BitStore.{name} can return without applying bitarray's "
+                   f"{'in-place ' if name.startswith('__i') else ''}operator: the ValueError for operands of unequal length is raised only inside that call",
+                   loc=f.loc(), extra={'props': ['C16']})
+        else:
+            r.ok(f'{name} unconditional')
     # frombuffer is the only sharing constructor
     for f in m.funcs.values():
         for x in own_walk(f.node):
@@ -853,6 +875,14 @@ def rule_A10(ctx):
                 n += 1
                 ok = True
                 why = ''
+                if b[2] == 'ctor' and node[1] in IMMUTABLE:
+                    for y in own_walk(f.node):
+                        if isinstance(y, ast.Assign) and isinstance(y.targets[0], ast.Name) and y.targets[0].id == x and isinstance(y.value, ast.Call):
+                            call = y.value
+                            if call.args or any(k.arg not in ('length',) for k in call.keywords):
+                                ok = False
+                                why = (f"{norm(call)} builds an immutable {node[1]} from another value: an immutable object shares the store of what it is "
+                                       'built from (a Bits operand, the string cache)')
                 if b[2] == 'copy':
                     # find the call that produced it
                     for y in own_walk(f.node):
